@@ -275,7 +275,7 @@ def isarray(x):
 
 
 def shape_is(a, *dims):
-    return isinstance(a, np.ndarray) and tuple(a.shape) == tuple(int(d) for d in dims)
+    return tuple(np.shape(a)) == tuple(int(d) for d in dims)
 
 
 def note(s):
@@ -320,6 +320,8 @@ def sigma(n, f, lo=0):
 
 
 def elem(a, *i):
+    if not i and not isinstance(a, np.ndarray):
+        return a
     return a[tuple(int(j) for j in i)]
 
 
